@@ -11,7 +11,7 @@ def run(p):
         r = subprocess.run(f'cd {t} && patch -p1 -s < {p}', shell=True, capture_output=True)
         if r.returncode: return name, 'PATCHFAIL', ''
         env = dict(os.environ, VERIF_EVIDENCE_DIR=t + '/ev', VERIF_QUIET='1', VERIF_JOBS='1')
-        r = subprocess.run(['/venv/bin/python', '/verif/sa/check.py', prop, '--repo', t], capture_output=True, text=True, env=env)
+        r = subprocess.run(['/venv/bin/python', os.environ.get('VERIF_SA', '/verif/sa') + '/check.py', prop, '--repo', t], capture_output=True, text=True, env=env)
         out = '\n'.join(l for l in (r.stdout + r.stderr).splitlines() if 'condarc' not in l and not l.startswith('OK '))
         kind = 'FA' if 'VIOLATION' in out else 'E2' if ('ANALYSIS-ERROR' in out or r.returncode != 0) else 'ok'
         lines = [l for l in out.splitlines() if 'rule=' in l or 'ANALYSIS-ERROR' in l or 'Traceback' in l or 'Error' in l]
